@@ -224,6 +224,51 @@ def sprintf_formats(chk, sb_tu):
     return out
 
 
+def eval_int_helper(sb_tu, name, bits, convs):
+    """partially evaluate stringBuilderAppend<Int> on boundary values with the printf model; the appended text must denote the value
+    (hexadecimal for the Hex helpers, signed decimal otherwise).  -> problem text or None"""
+    hexa = 'x' in convs.lower()
+    top = 1 << (bits - 1)
+    vals = sorted({0, 1, 9, 10, 15, 16, 255, 256, 0xABCDEF, 0x0FFFFFFF, 0x10000000, 0x7FFFFFFF, 0x80000000, 0xFFFFFFFF, 0x100000000 % (1 << bits),
+                   0x7FF8000000000000 % (1 << bits), 0xFFF4000000ABCDEF % (1 << bits), 0x0000000100000000 % (1 << bits),
+                   0x1000000000000000 % (1 << bits), top - 1, top, (1 << bits) - 1})
+    for v in vals:
+        got = []
+
+        def sized(interp, args, node):
+            b_, k = args[1], args[2]
+            if not (isinstance(b_, Ptr) and isinstance(k, int)):
+                raise pe.PEError('append of a symbolic buffer')
+            got.append(''.join(chr(interp.load(b_.c, b_.k + i) & 0xFF) for i in range(k)))
+            return 1
+
+        def plain(interp, args, node):
+            s_ = emit._cstr(interp, args[1])
+            if not isinstance(s_, str):
+                raise pe.PEError('append of a symbolic string')
+            got.append(s_)
+            return 1
+        it = pe.Interp([sb_tu], {'sprintf': emit._sprintf, 'stringBuilderAppendSized': sized, 'stringBuilderAppend': plain,
+                                 'strlen': emit._strlen})
+        it.cur_tu = sb_tu
+        arg = v if hexa or v < top else v - (1 << bits)
+        try:
+            ps = [p for p in it.explore(lambda: (name, [unk('builder'), arg], {})) if not p.aborted]
+        except pe.PEError as ex:
+            raise AnalysisBroken('%s(0x%X): %s' % (name, v, ex))
+        if len(ps) != 1 or ps[0].ret != 1:
+            return 'has %d paths / returns %r for the value 0x%X' % (len(ps), ps[0].ret if ps else None, v)
+        text = ''.join(got)
+        try:
+            val = int(text, 16) if hexa else int(text, 10)
+        except ValueError:
+            return 'appends %r for the value 0x%X' % (text, v)
+        if (val & ((1 << bits) - 1)) != v or (hexa and val != v):
+            return 'appends %r for the value 0x%X: read back as %s it denotes 0x%X - the constant in the generated C is another bit pattern' % (
+                text, v, 'hexadecimal' if hexa else 'decimal', val & ((1 << 64) - 1))
+    return None
+
+
 CONV = re.compile(r'%([-+ #0]*)(\d+)?(?:\.(\d+|\*))?(hh|h|ll|l|q|j|z|t|L)?([diouxXeEfFgGcs])$')
 
 
@@ -241,6 +286,14 @@ def check_formats(chk, fmts):
         e = fmts[name]
         m = CONV.match(e['fmt'] or '')
         loc = astdb.loc_str(e['node'])
+        if m is None and cls == 'int':
+            # not one conversion (e.g. the value printed in two halves): decide the digits the function really appends, on boundary values
+            bad = eval_int_helper(e['tu'], name, n, convs)
+            chk.expect(not bad, 'R07.4', name + ':format',
+                       '%s (format %r, not a single conversion) %s' % (name, e['fmt'], bad), name + ':sprintf', loc)
+            if 'x' in convs.lower():
+                chk.expect(True, 'R07.2', name, '', name + ':sprintf')
+            continue
         chk.require(m is not None, 'format %r of %s is not a single conversion' % (e['fmt'], name))
         flags, width, prec, lmod, conv = m.groups()
         site = name + ':sprintf'
